@@ -780,7 +780,7 @@ Lemma init_thrs_shape ops : exists m cl n, 0 < m /\ length cl = m /\ nclients (i
   (forall i p, nth_error cl i = Some p -> exists r, p = next_client i r).
 Proof.
   unfold init. set (d := decode ops). set (m := Nat.min (S (dmax d)) 3).
-  exists m, (map (fun ip => next_client (fst ip) (snd ip)) (combine (seq 0 m) (firstn m [dp0 d; dp1 d; dp2 d]))), (dn d).
+  exists m, (map (fun ip => next_client (fst ip) (snd ip)) (combine (seq 0 m) (firstn m [dp0 d; dp1 d; dp2 d]))), (Nat.max 1 (dn d)).
   assert (M : 0 < m <= 3) by (unfold m; lia).
   repeat split; try reflexivity; try lia.
   - rewrite map_length, combine_length, seq_length, firstn_length. cbn [length]. lia.
@@ -955,3 +955,9 @@ Lemma bare_forgotten_witness :
   let ops := [[1;1]; [3;0]; [2;0;4;0;0]; [2;0;1;0;0]]%Z in
   terminalb (final_state ops) = true /\ forgotten (final_state ops) = true.
 Proof. vm_compute. split; reflexivity. Qed.
+
+Theorem bare_handle_forgotten_refuted : exists ops s, reachable ops s /\ terminal s /\ forgotten s = true.
+Proof.
+  exists [[1;1]; [3;0]; [2;0;4;0;0]; [2;0;1;0;0]]%Z. eexists. split; [apply final_reachable|].
+  destruct bare_forgotten_witness as [A B]. split; [apply terminalb_sound, A|exact B].
+Qed.
